@@ -751,6 +751,99 @@ def stage7():
     return done
 
 
+# ------------------------------------------------------------------ stage 8
+C03_STAGE8 = """
+(* ---- third wave (stage 8): the lexical checks as translated from py7zr/helpers.py on this run (gen/HelpersPath.v:
+   canonical_path; gen/HelpersPath2.v: is_relative_to, get_sanitized_output_path, is_path_valid) ARE the functions of FS.v the
+   theorems above are about.  The generated code works on pathlib paths as CPython 3.12 stores them (Path.ppath: the raw
+   segments; joinpath appends a segment; parts / is_absolute / is_relative_to / relative_to parse posixpath.join of the
+   segments); PathFsGen.fs_of parses such a path into FS.v's (root kind, parts) and every pathlib operation the helpers use
+   commutes with it.  cwd0 is pathlib.Path.cwd(): the only assumption is that it parses to an absolute path "/" + cwd
+   (C03_gen_cwd: it does for os.getcwd() = "/" + "/".join(cwd)).  Err EBad7z = Bad7zFile. ---- *)
+Theorem C03_gen_fs_of_path : forall s, PathFsGen.fs_of [s] = pparse s.
+Proof. exact PathFsGen.fs_of_single. Qed.
+Print Assumptions C03_gen_fs_of_path.
+
+Theorem C03_gen_fs_of_joinpath : forall p s q,
+  PathFsGen.fs_of (Path.pp_joinpath p s) = pjoin (PathFsGen.fs_of p) s /\\
+  PathFsGen.fs_of (Path.pp_joinpath_p p q) = pjoinp (PathFsGen.fs_of p) (PathFsGen.fs_of q) /\\
+  Path.pp_is_absolute p = p_is_abs (PathFsGen.fs_of p).
+Proof. intros p s q. repeat split; [apply PathFsGen.fs_of_joinpath | apply PathFsGen.fs_of_joinpath_p | apply PathFsGen.fs_of_is_absolute]. Qed.
+Print Assumptions C03_gen_fs_of_joinpath.
+
+Theorem C03_gen_cwd : forall cwd, Forall (fun c => PathProofs.good_comp c = true) cwd ->
+  PathFsGen.fs_of [47 :: Path.join_slash cwd] = mkP 1 cwd.
+Proof. exact PathFsGen.fs_of_cwd. Qed.
+Print Assumptions C03_gen_cwd.
+
+Theorem C03_gen_canonical_path : forall p,
+  HelpersPath.canonical_path p = Ok (Path.canonical_path p) /\\
+  PathFsGen.fs_of (Path.canonical_path p) = canonical_path (PathFsGen.fs_of p).
+Proof. exact PathFsGen.gen_canonical_path_fs. Qed.
+Print Assumptions C03_gen_canonical_path.
+
+Theorem C03_gen_is_relative_to : forall my other,
+  HelpersPath2.is_relative_to my other = Ok (is_relative_to (PathFsGen.fs_of my) (PathFsGen.fs_of other)).
+Proof. exact PathFsGen.gen_is_relative_to. Qed.
+Print Assumptions C03_gen_is_relative_to.
+
+Theorem C03_gen_is_path_valid : forall target parent cwd0 cwd, PathFsGen.fs_of cwd0 = mkP 1 cwd ->
+  HelpersPath2.is_path_valid target parent cwd0 =
+  Ok (is_path_valid (PathFsGen.fs_of target) cwd (option_map PathFsGen.fs_of parent)).
+Proof. exact PathFsGen.gen_is_path_valid. Qed.
+Print Assumptions C03_gen_is_path_valid.
+
+(* the sanitiser: it returns a path exactly when the model does, the same one; every other outcome is Bad7zFile *)
+Theorem C03_gen_get_sanitized_output_path : forall fname path cwd0 cwd, PathFsGen.fs_of cwd0 = mkP 1 cwd ->
+  match HelpersPath2.get_sanitized_output_path fname path cwd0 with
+  | Ok p => get_sanitized_output_path fname cwd (option_map PathFsGen.fs_of path) = Some (PathFsGen.fs_of p)
+  | Err e => e = EBad7z /\\ get_sanitized_output_path fname cwd (option_map PathFsGen.fs_of path) = None
+  end.
+Proof. exact PathFsGen.gen_get_sanitized_output_path. Qed.
+Print Assumptions C03_gen_get_sanitized_output_path.
+
+(* the theorems about the sanitiser above, for the code as translated *)
+Theorem C03_gen_sanitized_lexically_inside : forall nm cwd0 cwd b o, PathFsGen.fs_of cwd0 = mkP 1 cwd ->
+  HelpersPath2.get_sanitized_output_path nm (Some b) cwd0 = Ok o ->
+  proot (PathFsGen.fs_of o) = proot (canonical_path (PathFsGen.fs_of b)) /\\
+  prefixb (pparts (canonical_path (PathFsGen.fs_of b))) (pparts (PathFsGen.fs_of o)) = true.
+Proof. exact PathFsGen.gen_sanitized_lexically_inside. Qed.
+Print Assumptions C03_gen_sanitized_lexically_inside.
+
+Theorem C03_gen_sanitized_canonical_inside : forall nm cwd0 cwd b o, PathFsGen.fs_of cwd0 = mkP 1 cwd ->
+  proot (PathFsGen.fs_of b) = 1 -> nodd (pparts (PathFsGen.fs_of b)) ->
+  HelpersPath2.get_sanitized_output_path nm (Some b) cwd0 = Ok o ->
+  proot (PathFsGen.fs_of o) = 1 /\\ nodd (pparts (PathFsGen.fs_of o)) /\\
+  prefixb (pparts (PathFsGen.fs_of b)) (pparts (PathFsGen.fs_of o)) = true.
+Proof. exact PathFsGen.gen_sanitized_canonical_inside. Qed.
+Print Assumptions C03_gen_sanitized_canonical_inside.
+
+Theorem C03_gen_sanitized_none_inside : forall nm cwd0 cwd o, PathFsGen.fs_of cwd0 = mkP 1 cwd -> nodd cwd ->
+  HelpersPath2.get_sanitized_output_path nm None cwd0 = Ok o ->
+  proot (PathFsGen.fs_of o) = 0 /\\ nodd (pparts (PathFsGen.fs_of o)).
+Proof. exact PathFsGen.gen_sanitized_none_inside. Qed.
+Print Assumptions C03_gen_sanitized_none_inside.
+"""
+
+PATH_DEPS = ["canonical_path", "remove_relative_path_marker", "is_relative_to", "get_sanitized_output_path", "is_path_valid"]
+
+
+def stage8():
+    done = []
+    add_require("coq/props/C03.v", "From P7 Require Import Prelude FS ExtractFS FSProofs.\n",
+                "From P7 Require Path PathProofs PyPath PathFsGen.\nFrom P7gen Require HelpersPath HelpersPath2.\n")
+    if patch("coq/props/C03.v", "C03_gen_get_sanitized_output_path", [], C03_STAGE8):
+        done.append("props/C03.v")
+    if patch("tools/harness/c03.py", "pathgen.check_lexical_gen",
+             [("    check_lexical(ctx, rep, rng, tier)\n",
+               "    check_lexical(ctx, rep, rng, tier)\n    from harness import pathgen\n"
+               "    pathgen.check_lexical_gen(ctx, rep, random.Random(ctx[\"seed\"] + 8), tier)\n")]):
+        done.append("tools/harness/c03.py")
+    if add_gen_deps("tools/harness/c03.py", PATH_DEPS):
+        done.append("tools/harness/c03.py (GEN_DEPS)")
+    return done
+
+
 if __name__ == "__main__":
     print("stage 1:", stage1())
     print("stage 2:", stage2())
@@ -760,3 +853,4 @@ if __name__ == "__main__":
     print("stage 4b:", stage4b())
     print("stage 4c:", stage4c())
     print("stage 7:", stage7())
+    print("stage 8:", stage8())
